@@ -6,7 +6,7 @@ without NameError / UnboundLocalError / AttributeError); the property's listed
 negative shapes must be rejected; 'defined in both branches, used after' is
 unspecified and not judged.
 """
-from .. import ctxgen
+from .. import ctxgen, scopeseq
 from ..pyside import run_python, went_wrong
 from ..staticprop import evaluate_verdict
 
@@ -91,6 +91,8 @@ def payloads(tier):
 def cases(tier, seed):
     depth = 1 if tier == "quick" else 2
     yield from ctxgen.cases_for(payloads(tier), depth, "c09")
+    # the scope machine: every statement sequence over {def, def fin, shadowing def, assign, typed uses, 7 block kinds} within a size bound
+    yield from scopeseq.cases("C09", tier)
 
 
 def evaluate(case, drv):
